@@ -111,11 +111,12 @@ Definition start_ok (ai : bool) (n : Z) (x : option Z) : bool :=
   | None => true
   | Some v => if ai then (- n <=? v) && (v <=? n - 1) else negb (v =? 0) && (- n <=? v) && (v <=? n)
   end.
-(* (a 1-based end of 0 is let through and means "all but the last", like -1) *)
+(* (a 1-based end of 0 is refused like a 1-based start of 0 - fix D100; before, it was let
+   through and meant "all but the last", like -1) *)
 Definition end_ok (ai : bool) (n : Z) (x : option Z) : bool :=
   match x with
   | None => true
-  | Some v => if ai then (- n <=? v) && (v <=? n) else (- n <=? v) && (v <=? n + 1)
+  | Some v => if ai then (- n <=? v) && (v <=? n) else negb (v =? 0) && (- n <=? v) && (v <=? n + 1)
   end.
 Definition rc_start (ai : bool) (n : Z) (x : option Z) : Z :=
   match x with None => 0 | Some v => if v <? 0 then n + v else if ai then v else v - 1 end.
@@ -133,8 +134,8 @@ Lemma std_rc_chain : forall rs re cs ce rows cols ai oi r,
   std_rc rs re cs ce rows cols ai oi = Ok r <->
   (let rs1 := one_start ai rs in let re1 := one_end ai rows re in
    let cs1 := one_start ai cs in let ce1 := one_end ai cols ce in
-   (rs1 <> 0 /\ - rows <= rs1 <= rows) /\ (- rows <= re1 <= rows + 1) /\
-   (cs1 <> 0 /\ - cols <= cs1 <= cols) /\ (- cols <= ce1 <= cols + 1) /\
+   (rs1 <> 0 /\ - rows <= rs1 <= rows) /\ (re1 <> 0 /\ - rows <= re1 <= rows + 1) /\
+   (cs1 <> 0 /\ - cols <= cs1 <= cols) /\ (ce1 <> 0 /\ - cols <= ce1 <= cols + 1) /\
    let o := if oi then 1 else 0 in
    r = (norm1 rows rs1 - o, norm1 rows re1 - o, norm1 cols cs1 - o, norm1 cols ce1 - o)).
 Proof.
@@ -143,6 +144,7 @@ Proof.
   generalize (one_start ai rs) (one_end ai rows re) (one_start ai cs) (one_end ai cols ce).
   intros a b c d. cbv zeta. unfold norm1.
   destruct ((c =? 0) || (a =? 0)) eqn:E0; [split; [discriminate|lia]|].
+  destruct ((d =? 0) || (b =? 0)) eqn:E0'; [split; [discriminate|lia]|].
   destruct (rows <? a) eqn:E1; [split; [discriminate|lia]|].
   destruct (a <? 0) eqn:Ea.
   - destruct (rows + a + 1 <? 1) eqn:E2; [split; [discriminate|lia]|].
@@ -218,7 +220,7 @@ Proof.
   destruct ai; cbn [andb]; [destruct (0 <=? v) eqn:E|]; lia.
 Qed.
 Lemma end_ok_one : forall ai n x, 1 <= n ->
-  end_ok ai n x = true <-> (- n <= one_end ai n x <= n + 1).
+  end_ok ai n x = true <-> (one_end ai n x <> 0 /\ - n <= one_end ai n x <= n + 1).
 Proof.
   intros ai n [v|] Hn; unfold end_ok, one_end, to_one_based; [|split; [lia|reflexivity]].
   destruct ai; cbn [andb]; [destruct (0 <=? v) eqn:E|]; lia.
